@@ -41,6 +41,10 @@ CHECKS = {
  'C04': dict(
    text='bounded, solver-decided: documents whose element/attribute names are solver-chosen members of adversarial alphabets are parsed and rendered; an independent reader of the emitted grammar re-reads the output and every clause (legal non-keyword identifiers, unique struct names, no shadowing, unique fields, defined field types, single use) is decided per path. Eight genuine defects are listed by role in known_findings.json; every clause is queried separately so that a violation outside the listed roles is still a VIOLATION',
    design='§4 C04, §6', technique='symbolic execution with solver-chosen adversarial names; independent output reader; per-clause decision; role-keyed known findings'),
+ 'C12': dict(
+   text='bounded in documents, exhaustive in environment outcomes: main() and run() of src/main.rs (and the From impls of src/args.rs) are executed symbolically with arbitrary Args and a nondeterministic environment (read / parse / create / write each succeeding or failing); per path z3 shows exit status, stdout, stderr, file creation and file content to be exactly what the property prescribes (header + library rendering for the mapped options; no create when the input is at fault). clap argv parsing and real file-system semantics are NOT claimed; sampled paths are replayed with the real binary',
+   design='§4 C12', technique='symbolic execution of main()/run() with symbolic Args and environment stubs; effect trace decided by z3; replay with the real binary',
+   note='trusted base: rsym + environment stubs (fs::read_to_string, File::create, write!, println!, eprintln!, process::exit, Args::parse), z3, tools/replay. Partial claim: argv parsing (clap derive) and real process / file-system behaviour are outside'),
  'C14': dict(
    text='bounded, solver-decided: trees from templates (same name under two parents, at several depths, under itself, next to unique names, merged from two documents) with solver-chosen names; PascalCase from interpreting convert_string; per path: first struct is the root\'s, every struct name is nearest-ancestors + own (+suffix), names occurring at a single position are unqualified',
    design='§4 C14', technique='symbolic execution of compute_name_hints / expand_name / inner_to_serde_struct with solver-chosen names; naming clauses decided per path'),
